@@ -5,6 +5,8 @@
 -/
 import QV.Proofs.ZoneFile.Frame
 import QV.Proofs.ZoneFile.Files
+import QV.Proofs.ZoneFile.Shift
+import QV.Proofs.ZoneFile.Paren
 
 namespace QV.ZF
 open QV
@@ -169,5 +171,160 @@ theorem collect_append (b : List UInt8) (n : Nat) : ∀ (x : List UInt8), x.leng
           rw [collect]; simp [Parser.next, hu]
         obtain ⟨i, hi⟩ := hok _ hmem
         cases hi
+
+/-! ### the end of a reading: outside parentheses; independent of the line counter -/
+
+theorem next_paren (p p' : Parser) (y : Option Yield) (h : p.next = (y, p')) (hp : p.st.paren = false) :
+    p'.st.paren = false := by
+  obtain ⟨e, st, ctx⟩ := p
+  unfold Parser.next at h
+  cases e with
+  | true => simp at h; rw [← h.2]; exact hp
+  | false =>
+    simp only [Bool.false_eq_true, ↓reduceIte] at h
+    cases hu : untilData ctx st with
+    | ok r =>
+      obtain ⟨⟨it?, ctx'⟩, st'⟩ := r
+      have := untilData_paren ctx st _ _ hu hp
+      rw [hu] at h
+      cases it? <;> (simp at h; rw [← h.2]; exact this)
+    | err e => rw [hu] at h; simp at h; rw [← h.2]; exact hp
+    | panic => rw [hu] at h; simp at h; rw [← h.2]; exact hp
+
+theorem finish_paren_aux (n : Nat) : ∀ (p : Parser), p.st.inp.length ≤ n → p.st.paren = false →
+    p.finish.st.paren = false := by
+  induction n with
+  | zero =>
+    intro p hlen hp
+    rw [Parser.finish]
+    cases hn : p.next with
+    | mk y p' =>
+      have := next_paren p p' y hn hp
+      cases y with
+      | none => exact this
+      | some y =>
+        cases y with
+        | item i =>
+          have hlt : ¬ p'.st.inp.length < p.st.inp.length := by omega
+          simp only [hlt, ↓reduceIte]; exact this
+        | err e => exact this
+        | panic => exact this
+  | succ n ih =>
+    intro p hlen hp
+    rw [Parser.finish]
+    cases hn : p.next with
+    | mk y p' =>
+      have := next_paren p p' y hn hp
+      cases y with
+      | none => exact this
+      | some y =>
+        cases y with
+        | item i =>
+          simp only
+          split
+          · next hlt => exact ih p' (by omega) this
+          · exact this
+        | err e => exact this
+        | panic => exact this
+
+theorem finish_paren (p : Parser) (hp : p.st.paren = false) : p.finish.st.paren = false :=
+  finish_paren_aux p.st.inp.length p (Nat.le_refl _) hp
+
+/-- the records among what the iterator yields, without their line numbers -/
+def recsOfY (ys : List Yield) : List Rec :=
+  ys.filterMap fun y => match y with
+    | .item (.record _ r) => some r
+    | _ => none
+
+theorem recsOfY_shift (ys : List Yield) (k : Nat) : recsOfY (ys.map (shiftY k)) = recsOfY ys := by
+  induction ys with
+  | nil => rfl
+  | cons y ys ih =>
+    simp only [recsOfY, List.map_cons, List.filterMap_cons] at ih ⊢
+    cases y with
+    | item i => cases i <;> simp [shiftY, shItem, ih]
+    | err e => simp [shiftY, ih]
+    | panic => simp [shiftY, ih]
+
+/-- the records of a text do not depend on the line at which reading starts -/
+theorem recsOfY_line (x : List UInt8) (l1 l2 : Nat) (q : Bool) (ctx : Ctx) :
+    recsOfY (collect ⟨false, ⟨x, l1, q⟩, ctx⟩) = recsOfY (collect ⟨false, ⟨x, l2, q⟩, ctx⟩) := by
+  have h1 := collect_shift ⟨false, ⟨x, 0, q⟩, ctx⟩ l1
+  have h2 := collect_shift ⟨false, ⟨x, 0, q⟩, ctx⟩ l2
+  simp only [shiftParser, shiftSt, Nat.zero_add] at h1 h2
+  rw [h1, h2, recsOfY_shift, recsOfY_shift]
+
+theorem next_item_error (p p' : Parser) (i : Item) (h : p.next = (some (.item i), p')) :
+    p.error = false ∧ p'.error = false := by
+  obtain ⟨e, st, ctx⟩ := p
+  unfold Parser.next at h
+  cases e with
+  | true => simp at h
+  | false =>
+    simp only [Bool.false_eq_true, ↓reduceIte] at h
+    cases hu : untilData ctx st with
+    | ok r =>
+      obtain ⟨⟨it?, ctx'⟩, st'⟩ := r
+      rw [hu] at h
+      cases it? <;> simp at h
+      exact ⟨rfl, by rw [← h.2]⟩
+    | err e => rw [hu] at h; simp at h
+    | panic => rw [hu] at h; simp at h
+
+theorem next_fail_ctx (p p' : Parser) (y : Yield) (h : p.next = (some y, p')) (hy : ∀ i, y ≠ .item i) :
+    p'.ctx = p.ctx := by
+  obtain ⟨e, st, ctx⟩ := p
+  unfold Parser.next at h
+  cases e with
+  | true => simp at h
+  | false =>
+    simp only [Bool.false_eq_true, ↓reduceIte] at h
+    cases hu : untilData ctx st with
+    | ok r =>
+      obtain ⟨⟨it?, ctx'⟩, st'⟩ := r
+      rw [hu] at h
+      cases it? <;> simp at h
+      exact absurd h.1.symm (hy _)
+    | err e => rw [hu] at h; simp at h; rw [← h.2]
+    | panic => rw [hu] at h; simp at h; rw [← h.2]
+
+/-- the context in which a reading ends is well formed -/
+theorem finish_ctxWF_aux (n : Nat) : ∀ (q : Parser), q.st.inp.length ≤ n → CtxWF q.ctx → CtxWF q.finish.ctx := by
+  induction n with
+  | zero =>
+    intro q hlen hq
+    rw [Parser.finish]
+    have g := next_spec (p := q) hq
+    cases hn : q.next with
+    | mk y q' =>
+      rw [hn] at g
+      cases y with
+      | none => exact g
+      | some y =>
+        cases y with
+        | item i => have := g.2.2; omega
+        | err e => simp only; rw [next_fail_ctx q q' _ hn (by intro i h; cases h)]; exact hq
+        | panic => exact g.elim
+  | succ n ih =>
+    intro q hlen hq
+    rw [Parser.finish]
+    have g := next_spec (p := q) hq
+    cases hn : q.next with
+    | mk y q' =>
+      rw [hn] at g
+      cases y with
+      | none => exact g
+      | some y =>
+        cases y with
+        | item i =>
+          simp only
+          split
+          · exact ih q' (by have := g.2.2; omega) g.2.1
+          · exact g.2.1
+        | err e => simp only; rw [next_fail_ctx q q' _ hn (by intro i h; cases h)]; exact hq
+        | panic => exact g.elim
+
+theorem finish_ctxWF (q : Parser) (hq : CtxWF q.ctx) : CtxWF q.finish.ctx :=
+  finish_ctxWF_aux q.st.inp.length q (Nat.le_refl _) hq
 
 end QV.ZF
